@@ -3,6 +3,8 @@ import IbModel.Model.Closures
 import IbModel.Generated.Tables
 import IbModel.Proofs.PlanSem
 import IbModel.Proofs.LiftPair
+import IbModel.Proofs.PlanExplain
+import IbModel.Model.PlanSynth
 import IbModel.Props.C01
 import IbModel.Props.C02
 /-!
@@ -28,6 +30,22 @@ Part 2 — semantics, `exec(optimise(chain)) == exec(chain)`:
   `ReorderInert`), `optimise_sem_builder_commuting_partial` (under the weaker `CommutingChain (fuse …)`), their
   parallel corollaries for every partition count, and the general `optimise_sem_general_partial` for
   arbitrary (synthetic) chains.
+
+Part 3 — "The plan reported by explain is the plan that runs" (`Model/PlannerExplain.lean`: the tracked passes with
+their decisions, `build_plan`, `Plan::explain`, `run_collect`):
+* `buildPlan_chain_is_optimise`, `runCollect_executes_the_plan` — `run_collect` executes `build_plan(..).chain`,
+  which is `optimise chain` (the four passes in the code's order), in both engines; with Part 2:
+  `runCollect_sem_builder_partial` (what `collect_seq` / `collect_par` return is what the literal steps return);
+* `explain_lists_the_plan`, `explain_counts_the_plan`, `explain_is_the_plan_that_runs` — every step of `explain()`
+  is the node of the executed chain at that position (type, barrier flag, cost hint, description, numbering) and the
+  cost estimate counts that chain;
+* decisions: `fuse_decision_iff_changed`, `fuse_decision_counts`, `lift_decision_iff_changed`,
+  `drop_decision_iff_changed`, `reorder_decision_if_changed` + `reorder_decisions_are_the_sorted_blocks`; the "iff"
+  is FALSE for the reorder pass of the code that exists (it reports every block it sorts, also one that was already
+  in order): negation witness `reorder_decision_without_change`; `buildPlan_reports_the_passes_in_order`;
+* partitions: `suggestPartitions_bounds`, `suggestPartitions_exact`, `collect_par_default_uses_the_suggestion`;
+* lift guard: `lift_guard_no_local_groups`, `liftGbk_id_of_no_lifted_combine`; the user contract the planner relies
+  on (`build_fold` of `LawfulCombiner`): negation witness `lift_unsound_without_build_fold`.
 -/
 namespace IB
 variable {P : Type}
@@ -491,3 +509,381 @@ example :
     refine ⟨?_, ?_⟩ <;> decide
 
 end IB
+
+/-! # Part 3 — "The plan reported by explain is the plan that runs" -/
+
+namespace IB
+open C02W
+section explain
+variable {P : Type}
+
+/-- C03 (build_plan): the chain of the plan is the four passes composed in the code's order — fuse, reorder,
+    lift, drop_mid — i.e. the `optimise` every theorem above is about (for every chain, every CPU count). -/
+theorem buildPlan_chain_is_optimise (cpus : Nat) (c : List (Node P)) : (buildPlan cpus c).chain = optimise c := by
+  simp only [buildPlan, dropMidTracked, liftTracked, reorderTracked, fuseTracked_fst, optimise]
+
+/-- C03 (run_collect): what runs IS the plan's chain: `run_collect` of a default runner executes
+    `optimise chain` with the sequential engine, and with the parallel engine on the requested partition count, or —
+    when none is requested — on the suggested one, or on `2·max(cpus, 2)`. -/
+theorem runCollect_executes_the_plan (concat : List P → P) (cpus : Nat) (c : List (Node P)) :
+    runCollect concat cpus .sequential c = execSeq (optimise c) ∧
+    (∀ n, runCollect concat cpus (.parallel (some n)) c = execPar concat (optimise c) n) ∧
+    runCollect concat cpus (.parallel none) c =
+      execPar concat (optimise c) (chosenPartitions cpus none (buildPlan cpus c).suggestedPartitions) := by
+  refine ⟨?_, fun n => ?_, ?_⟩ <;> simp only [runCollect, buildPlan_chain_is_optimise, chosenPartitions]
+
+/-- C03 (explain, steps): for EVERY plan, the steps of `explain()` are the nodes of `plan.chain`, one per node, in
+    order: numbered 1.., with the node's type name, its barrier flag, its cost hint (Σ op costs for a block) and its
+    description (op count and per-op costs of a block, lifted / pairs mode of a combine, fan-out of a global
+    combine, size of a source). -/
+theorem explain_lists_the_plan (p : Plan P) :
+    p.explain.steps.length = p.chain.length ∧
+    p.explain.steps.map (·.step) = List.range' 1 p.chain.length ∧
+    p.explain.steps.map (·.nodeType) = p.chain.map Node.typeName ∧
+    p.explain.steps.map (·.isBarrier) = p.chain.map Node.isBarrier ∧
+    p.explain.steps.map (·.costHint) = p.chain.map Node.stepCost ∧
+    p.explain.steps.map (·.description) = p.chain.map Node.description := by
+  have h : p.explain.steps = stepsFrom 0 p.chain := by
+    simp [Plan.explain, explainLoop_steps]
+  rw [h]
+  exact ⟨stepsFrom_length _ _, stepsFrom_map_step _ _, stepsFrom_map_type _ _, stepsFrom_map_barrier _ _,
+    stepsFrom_map_cost _ _, stepsFrom_map_description _ _⟩
+
+/-- every element-wise op of the chain is counted once by `stateless_ops` -/
+theorem statelessOpCount_eq_opsOf (c : List (Node P)) : statelessOpCount c = (opsOf c).length := by
+  induction c with
+  | nil => rfl
+  | cons n rest ih => cases n <;> simp [statelessOpCount, opsOf, ih]
+
+/-- C03 (explain, cost estimate): `barriers` counts the barrier nodes of the chain, `stateless_ops` its
+    element-wise ops, `total_ops` the ops plus one per non-source non-block node, `source_size` is the length of the
+    (last) source node; the decisions and the partition suggestion are the plan's. -/
+theorem explain_counts_the_plan (p : Plan P) :
+    p.explain.costEstimate.barriers = (p.chain.filter Node.isBarrier).length ∧
+    p.explain.costEstimate.statelessOps = (opsOf p.chain).length ∧
+    p.explain.costEstimate.totalOps = totalOpCount p.chain ∧
+    p.explain.costEstimate.sourceSize = lastSourceLen none p.chain ∧
+    p.explain.optimizations = p.optimizations ∧
+    p.explain.suggestedPartitions = p.suggestedPartitions := by
+  refine ⟨?_, ?_, ?_, ?_, rfl, rfl⟩
+  · simp [Plan.explain, explainLoop_barriers, barrierCount]
+  · simp [Plan.explain, explainLoop_statelessOps, statelessOpCount_eq_opsOf]
+  · simp [Plan.explain, explainLoop_totalOps]
+  · simp [Plan.explain, explainLoop_sourceSize]
+
+/-- C03, the last sentence of the property: for every chain `c` and machine, `explain()` of the plan that
+    `run_collect` builds lists exactly the nodes of the chain that `run_collect` executes (`optimise c`). -/
+theorem explain_is_the_plan_that_runs (concat : List P → P) (cpus : Nat) (c : List (Node P)) :
+    let plan := buildPlan cpus c
+    runCollect concat cpus .sequential c = execSeq plan.chain ∧
+    (∀ n, runCollect concat cpus (.parallel (some n)) c = execPar concat plan.chain n) ∧
+    plan.chain = optimise c ∧
+    plan.explain.steps.map (·.nodeType) = (optimise c).map Node.typeName ∧
+    plan.explain.steps.map (·.isBarrier) = (optimise c).map Node.isBarrier ∧
+    plan.explain.steps.map (·.costHint) = (optimise c).map Node.stepCost ∧
+    plan.explain.steps.map (·.description) = (optimise c).map Node.description ∧
+    plan.explain.costEstimate.statelessOps = (opsOf (optimise c)).length ∧
+    plan.explain.costEstimate.barriers = ((optimise c).filter Node.isBarrier).length := by
+  intro plan
+  have hc : plan.chain = optimise c := buildPlan_chain_is_optimise cpus c
+  have hl := explain_lists_the_plan plan
+  have hn := explain_counts_the_plan plan
+  rw [hc] at hl hn
+  exact ⟨rfl, fun _ => rfl, hc, hl.2.2.1, hl.2.2.2.1, hl.2.2.2.2.1, hl.2.2.2.2.2, hn.2.1, hn.1⟩
+
+/-! ## a decision is reported iff the pass changed the chain -/
+
+/-- C03 (decisions, fusion): `FusedStateless` is reported iff fusion changed the chain (iff it got shorter). -/
+theorem fuse_decision_iff_changed (c : List (Node P)) :
+    ((fuseTracked c).2.isSome ↔ fuse c ≠ c) ∧ ((fuseTracked c).2.isSome ↔ (fuse c).length < c.length) := by
+  have hadd := fuse_length_add c
+  have hle := fuse_length_le c
+  have key : (fuseTracked c).2.isSome ↔ (fuse c).length < c.length := by
+    rw [fuseTracked_snd]
+    split
+    · next h => simp only [Option.isSome_some, true_iff]; omega
+    · next h => simp only [Option.isSome_none, Bool.false_eq_true, false_iff]; omega
+  refine ⟨?_, key⟩
+  rw [key]
+  constructor
+  · intro h he
+    rw [he] at h
+    exact Nat.lt_irrefl _ h
+  · intro h
+    rcases Nat.lt_or_ge (fuse c).length c.length with hlt | hge
+    · exact hlt
+    · exact absurd (fuse_eq_self_of_length c (Nat.le_antisymm hle hge)) h
+
+/-- C03 (decisions, fusion): the numbers it reports are the chain's: blocks before = `Stateless` nodes of the
+    input, blocks after = `Stateless` nodes of the output, ops = all element-wise ops; and the number of removed
+    nodes is `before − after`. -/
+theorem fuse_decision_counts (c : List (Node P)) (b a o : Nat)
+    (h : (fuseTracked c).2 = some (.fusedStateless b a o)) :
+    b = countStateless c ∧ a = countStateless (fuse c) ∧ o = (opsOf c).length ∧ a < b ∧
+    c.length - (fuse c).length = b - a := by
+  have hadd := fuse_length_add c
+  rw [fuseTracked_snd] at h
+  split at h
+  · next hgt =>
+    simp only [Option.some.injEq, Decision.fusedStateless.injEq] at h
+    obtain ⟨rfl, rfl, rfl⟩ := h
+    exact ⟨rfl, rfl, statelessOpCount_eq_opsOf c, hgt, by omega⟩
+  · next _ => exact absurd h (by simp)
+
+/-- C03 (decisions, lift): `LiftedGBKCombine` is reported iff the lift pass changed the chain. -/
+theorem lift_decision_iff_changed (c : List (Node P)) :
+    ((liftTracked c).2.isSome ↔ liftGbk c ≠ c) ∧ ((liftTracked c).2.isSome ↔ (liftGbk c).length < c.length) := by
+  have key : (liftTracked c).2.isSome ↔ (liftGbk c).length < c.length := by
+    rw [← liftFires_iff_shorter]
+    unfold liftTracked
+    cases liftFires c <;> simp
+  refine ⟨?_, key⟩
+  constructor
+  · intro h he
+    have := key.mp h
+    rw [he] at this
+    exact Nat.lt_irrefl _ this
+  · intro h
+    cases hf : liftFires c with
+    | true => simp [liftTracked, hf]
+    | false => exact absurd (liftGbk_eq_self_of_not_fires c hf) h
+
+/-- C03 (decisions, drop): `DroppedMidMaterialized { count }` is reported iff the pass changed the chain, and
+    `count` is the number of removed nodes. -/
+theorem drop_decision_iff_changed (c : List (Node P)) :
+    ((dropMidTracked c).2.isSome ↔ dropMid c ≠ c) ∧
+    (∀ k, (dropMidTracked c).2 = some (.droppedMidMaterialized k) → 0 < k ∧ k = c.length - (dropMid c).length) := by
+  have hadd := dropMid_length_add c
+  constructor
+  · unfold dropMidTracked
+    constructor
+    · intro h he
+      rw [he] at hadd
+      split at h
+      · next hk => omega
+      · next _ => simp at h
+    · intro h
+      split
+      · rfl
+      · next hk =>
+        exact absurd (dropMid_eq_self_of_length c (by omega)) h
+  · intro k hk
+    unfold dropMidTracked at hk
+    split at hk
+    · next hpos =>
+      simp only [Option.some.injEq, Decision.droppedMidMaterialized.injEq] at hk
+      omega
+    · next _ => exact absurd hk (by simp)
+
+/-- C03 (decisions, reorder): every `ReorderedValueOps` decision belongs to a block of the chain whose ops are
+    ALL movable and that has more than one op (a block the pass sorts), and carries that block's length. -/
+theorem reorder_decisions_are_the_sorted_blocks (c : List (Node P)) :
+    ∀ d ∈ reorderDecisions c, ∃ ops, Node.stateless ops ∈ c ∧ ops.all movable = true ∧ ops.length > 1 ∧
+      d = .reorderedValueOps ops.length true := by
+  induction c with
+  | nil => intro d hd; simp [reorderDecisions] at hd
+  | cons n rest ih =>
+    intro d hd
+    cases n with
+    | stateless ops =>
+      simp only [reorderDecisions, List.mem_append] at hd
+      rcases hd with hd | hd
+      · split at hd
+        · next hc =>
+          simp only [Bool.and_eq_true, decide_eq_true_eq] at hc
+          simp only [List.mem_singleton] at hd
+          exact ⟨ops, by simp, hc.1, hc.2, hd⟩
+        · simp at hd
+      · obtain ⟨o, ho, h2⟩ := ih d hd
+        exact ⟨o, by simp [ho], h2⟩
+    | source w l s => obtain ⟨o, ho, h2⟩ := ih d (by simpa [reorderDecisions] using hd); exact ⟨o, by simp [ho], h2⟩
+    | gbk l m => obtain ⟨o, ho, h2⟩ := ih d (by simpa [reorderDecisions] using hd); exact ⟨o, by simp [ho], h2⟩
+    | combineValues lp lg m => obtain ⟨o, ho, h2⟩ := ih d (by simpa [reorderDecisions] using hd); exact ⟨o, by simp [ho], h2⟩
+    | combineGlobal l m f fo => obtain ⟨o, ho, h2⟩ := ih d (by simpa [reorderDecisions] using hd); exact ⟨o, by simp [ho], h2⟩
+    | coGroup l r cl cr e => obtain ⟨o, ho, h2⟩ := ih d (by simpa [reorderDecisions] using hd); exact ⟨o, by simp [ho], h2⟩
+    | materialized p => obtain ⟨o, ho, h2⟩ := ih d (by simpa [reorderDecisions] using hd); exact ⟨o, by simp [ho], h2⟩
+
+/-- C03 (decisions, reorder), one direction: if the reorder pass changed the chain it reports a decision.
+    FULL statement "reported iff changed" is FALSE for the code that exists, see the witness below. -/
+theorem reorder_decision_if_changed (c : List (Node P)) (h : reorder c ≠ c) : (reorderTracked c).2 ≠ [] := by
+  induction c with
+  | nil => exact absurd rfl h
+  | cons n rest ih =>
+    cases n with
+    | stateless ops =>
+      simp only [reorderTracked, reorderDecisions]
+      by_cases hc : (ops.all movable && decide (ops.length > 1)) = true
+      · simp [hc]
+      · have hb : reorderBlock ops = ops := by
+          unfold reorderBlock
+          simp only [hc, Bool.false_eq_true, ↓reduceIte]
+        have hr : reorder rest ≠ rest := by
+          intro he
+          apply h
+          simp only [reorder, hb, he]
+        have := ih hr
+        simp only [reorderTracked] at this
+        simp [hc, this]
+    | source w l s => exact ih (fun he => h (by simp only [reorder, he]))
+    | gbk l m => exact ih (fun he => h (by simp only [reorder, he]))
+    | combineValues lp lg m => exact ih (fun he => h (by simp only [reorder, he]))
+    | combineGlobal l m f fo => exact ih (fun he => h (by simp only [reorder, he]))
+    | coGroup l r cl cr e => exact ih (fun he => h (by simp only [reorder, he]))
+    | materialized p => exact ih (fun he => h (by simp only [reorder, he]))
+
+end explain
+
+/-- NEGATION witness for "a `ReorderedValueOps` decision is reported iff the pass changed the chain": the block
+    `[filter_values (cost 1), map_values (cost 3)]` is all-movable and already in cost order — the pass sorts it,
+    nothing moves (the labels stay `["f", "m"]`), and `ReorderedValueOps { ops_count: 2 }` is reported all the same.
+    (The code reports every block it SORTS; `reorder_decisions_are_the_sorted_blocks`.) -/
+theorem reorder_decision_without_change :
+    let f : DynOp Nat := { apply := id, keyPreserving := true, valueOnly := true, reorderSafe := true, cost := 1, label := "f" }
+    let m : DynOp Nat := { apply := id, keyPreserving := true, valueOnly := true, reorderSafe := true, cost := 3, label := "m" }
+    let c : List (Node Nat) := [.stateless [f, m]]
+    (reorderTracked c).2 = [.reorderedValueOps 2 true] ∧ (opsOf (reorder c)).map (·.label) = ["f", "m"] := by
+  refine ⟨by decide, ?_⟩
+  simp [reorder, reorderBlock, movable, opsOf, List.mergeSort, List.MergeSort.Internal.splitInTwo, keyLe,
+    sortKey]
+
+section explain2
+variable {P : Type}
+
+/-- C03 (build_plan): the decisions are reported in the order of the passes, each computed on the chain the
+    previous pass produced, followed by the partition suggestion when there is one. -/
+theorem buildPlan_reports_the_passes_in_order (cpus : Nat) (c : List (Node P)) :
+    (buildPlan cpus c).optimizations =
+      (fuseTracked c).2.toList ++ reorderDecisions (fuse c) ++ (liftTracked (reorder (fuse c))).2.toList ++
+      (dropMidTracked (liftGbk (reorder (fuse c)))).2.toList ++
+      (match suggestPartitions (max cpus 2) (estimateSourceLen c) with
+       | some parts => [Decision.partitionSuggestion (estimateSourceLen c) parts]
+       | none => []) ∧
+    (buildPlan cpus c).suggestedPartitions = suggestPartitions (max cpus 2) (estimateSourceLen c) := by
+  simp only [buildPlan, dropMidTracked, liftTracked, reorderTracked, fuseTracked_fst]
+  exact ⟨rfl, trivial⟩
+
+/-! ## partitions -/
+
+/-- C03 (partition suggestion): a suggestion is always within `[hw, 8·hw]` -/
+theorem suggestPartitions_bounds (hw n p : Nat) (h : suggestPartitions hw (some n) = some p) :
+    hw ≤ p ∧ p ≤ hw * 8 := by
+  simp only [suggestPartitions, Option.some.injEq] at h
+  split at h
+  · omega
+  · split at h <;> omega
+
+/-- … and inside that window it is exactly `⌈n / 64 000⌉`; no length hint, no suggestion -/
+theorem suggestPartitions_exact (hw n : Nat) (h1 : hw ≤ (n + 63999) / 64000) (h2 : (n + 63999) / 64000 ≤ hw * 8) :
+    suggestPartitions hw (some n) = some ((n + 63999) / 64000) ∧ suggestPartitions hw none = none := by
+  refine ⟨?_, rfl⟩
+  simp only [suggestPartitions, Option.some.injEq]
+  split
+  · omega
+  · split <;> omega
+
+/-- C03 (`collect_par(None, None)`): on a chain that starts with a source of length `len` the parallel engine is
+    handed exactly the suggested partition count (within `[hw, 8·hw]`, `hw = max(cpus, 2)`); on a chain without a
+    head source there is no suggestion and it is handed the runner's default `2·hw`. -/
+theorem collect_par_default_uses_the_suggestion (cpus : Nat) (c : List (Node P)) :
+    (∀ w len split rest, c = .source w len split :: rest →
+      ∃ p, suggestPartitions (max cpus 2) (some len) = some p ∧
+        chosenPartitions cpus none (buildPlan cpus c).suggestedPartitions = p ∧ max cpus 2 ≤ p ∧ p ≤ max cpus 2 * 8) ∧
+    (estimateSourceLen c = none →
+      chosenPartitions cpus none (buildPlan cpus c).suggestedPartitions = 2 * max cpus 2) := by
+  constructor
+  · intro w len split rest hc
+    subst hc
+    have hs : (buildPlan cpus (Node.source w len split :: rest)).suggestedPartitions
+        = suggestPartitions (max cpus 2) (some len) := (buildPlan_reports_the_passes_in_order cpus _).2
+    cases hp : suggestPartitions (max cpus 2) (some len) with
+    | none => simp [suggestPartitions] at hp
+    | some p =>
+      refine ⟨p, rfl, ?_, suggestPartitions_bounds _ _ _ hp⟩
+      rw [hs, hp]
+      rfl
+  · intro hn
+    rw [(buildPlan_reports_the_passes_in_order cpus c).2, hn]
+    rfl
+
+/-! ## the lift guard -/
+
+/-- C03 (lift guard): a `GroupByKey` followed by a `CombineValues` WITHOUT `local_groups` (a classic
+    `combine_values`) is NOT rewritten — both nodes stay, the scan continues behind them. -/
+theorem lift_guard_no_local_groups (l : P → P) (m : List P → P) (lp : P → P) (mg : List P → P) (rest : List (Node P)) :
+    liftGbk (.gbk l m :: .combineValues lp none mg :: rest) = .gbk l m :: .combineValues lp none mg :: liftGbk rest := by
+  have h1 : liftGbk (.gbk l m :: .combineValues lp none mg :: rest)
+      = .gbk l m :: liftGbk (.combineValues lp none mg :: rest) := by
+    rw [liftGbk.eq_def]
+  have h2 : liftGbk (.combineValues lp none mg :: rest) = .combineValues lp none mg :: liftGbk rest := by
+    rw [liftGbk.eq_def]
+  rw [h1, h2]
+
+/-- C03 (lift guard, whole chains): a chain in which no combine carries `local_groups` is left exactly as it is,
+    whatever else it contains; no decision is reported. -/
+theorem liftGbk_id_of_no_lifted_combine (c : List (Node P))
+    (h : ∀ n ∈ c, ∀ lp lg m, n ≠ Node.combineValues lp (some lg) m) :
+    liftGbk c = c ∧ (liftTracked c).2 = none := by
+  have hf : liftFires c = false := by
+    induction c with
+    | nil => rfl
+    | cons n rest ih =>
+      have hrest := ih (fun x hx => h x (by simp [hx]))
+      rw [liftFires.eq_def]
+      split
+      · next l m lp lg mm r heq =>
+        simp only [List.cons.injEq] at heq
+        obtain ⟨_, rfl⟩ := heq
+        exact absurd rfl (h _ (by simp) lp lg mm)
+      · next n' r' _ heq =>
+        simp only [List.cons.injEq] at heq
+        obtain ⟨_, rfl⟩ := heq
+        exact hrest
+      · next heq => simp at heq
+  exact ⟨liftGbk_eq_self_of_not_fires c hf, by simp [liftTracked, hf]⟩
+
+end explain2
+
+/-- C03, PARTIAL, end to end (`collect_seq` / `collect_par(_, n)` / `collect_par(_, None)`): on every builder chain
+    on which the value-only reorder pass is inert, `run_collect` — planning by itself, with ANY requested partition
+    count or with the one the planner suggests — returns what the steps executed literally as written return.
+    (PARTIAL only through `ReorderInert`: the known reorder finding, `optimise_sem_builder_full_is_false`.) -/
+theorem runCollect_sem_builder_partial (cpus : Nat) (xs : List Val) (rest : List (Node Part))
+    (h : ∀ nd ∈ rest, Built nd) (hin : ReorderInert (vecSource xs :: rest)) :
+    runCollect List.flatten cpus .sequential (vecSource xs :: rest) = execSeq (vecSource xs :: rest) ∧
+    ∀ parts, runCollect List.flatten cpus (.parallel parts) (vecSource xs :: rest) = execSeq (vecSource xs :: rest) := by
+  have hr := runCollect_executes_the_plan List.flatten cpus (vecSource xs :: rest)
+  refine ⟨by rw [hr.1, optimise_sem_builder_partial xs rest h hin], fun parts => ?_⟩
+  cases parts with
+  | some n => rw [hr.2.1 n, optimise_sem_builder_par_partial xs rest h hin n]
+  | none => rw [hr.2.2, optimise_sem_builder_par_partial xs rest h hin _]
+
+/-- non-vacuity of the guard: `group_by_key(); combine_values(Sum)` (classic) — the plan keeps both barriers and
+    reports no lift; with `combine_values_lifted` the pair is rewritten and the lift is reported -/
+example :
+    (liftGbk [gbkNode, combineValuesNode Comb.sum.toCombiner]).map Node.kind = ["GroupByKey", "CombineValues"] ∧
+    (liftTracked [gbkNode, combineValuesNode Comb.sum.toCombiner]).2 = none ∧
+    (liftGbk [gbkNode, combineValuesLiftedNode Comb.sum.toCombiner]).map Node.kind = ["CombineValues"] ∧
+    (liftTracked [gbkNode, combineValuesLiftedNode Comb.sum.toCombiner]).2 = some (.liftedGbkCombine true) := by
+  refine ⟨by decide, by decide, by decide, by decide⟩
+
+/-- What the planner ASSUMES of a user `LiftableCombiner` (it cannot inspect one: it lifts whenever
+    `local_groups.is_some()`): `build_from_group(values)` is — up to the accumulator equivalence — the fold of
+    `add_input` over `values` (field `build_fold` of `LawfulCombiner`, the hypothesis of `lift_pair_sem`).
+    NEGATION witness that the hypothesis cannot be dropped: `badSum` is `Sum` in everything but `build_from_group`
+    (`= Σ + 1000`); on `[(1,10),(1,30),(2,20)]` the literal chain `GBK → lifted combine` returns `[(1,1040),(2,1020)]`
+    and the planned chain (direct combine through `add_input`) returns `[(1,40),(2,20)]`; the window law fails.
+    A breach of the user's contract, outside the property — the harness runs it (`LIFTNEG`) as a documented negative
+    example, never as a violation. -/
+theorem lift_unsound_without_build_fold :
+    let b : Part := [kv 1 10, kv 1 30, kv 2 20]
+    let chain : List (Node Part) := [vecSource b, gbkNode, combineValuesLiftedNode badSum]
+    badSum.create = Comb.sum.toCombiner.create ∧ badSum.add = Comb.sum.toCombiner.add ∧
+    badSum.merge = Comb.sum.toCombiner.merge ∧ badSum.finish = Comb.sum.toCombiner.finish ∧
+    badSum.build [.int 10, .int 30] ≠ badSum.foldAdd badSum.create [.int 10, .int 30] ∧
+    execSeq chain = .ok [kv 1 1040, kv 2 1020] ∧
+    execSeq (optimise chain) = .ok [kv 1 40, kv 2 20] ∧
+    combineMerge badSum [combineLocalGroups badSum (gbkMerge [gbkLocal b])] ≠ combineMerge badSum [combineLocalPairs badSum b] := by
+  refine ⟨rfl, rfl, rfl, rfl, by decide, congrArg Except.ok (by decide), congrArg Except.ok (by decide), by decide⟩
+
+end IB
+
